@@ -153,7 +153,7 @@ def shard(p):
 def run(tier, seed):
     t0 = time.time()
     bins = {k: build.build(k)["vdriver"] for k in ("dbg", "rel")}
-    n = 12000 if tier == "quick" else 500000
+    n = 36000 if tier == "quick" else 500000
     payloads = [{"seed": seed, "shard": i, "nshards": NCPU, "n": n // NCPU, "bin": bins["dbg"], "kind": "dbg"} for i in range(NCPU)]
     if tier == "thorough":
         payloads += [{"seed": seed, "shard": 100 + i, "nshards": NCPU, "n": n // NCPU // 5, "bin": bins["rel"], "kind": "rel"} for i in range(NCPU)]
